@@ -27,7 +27,7 @@ CODE = 0x70000000
 
 
 def plan(tier, seed):
-    return [{'k': 'hub'}] * (6000 if tier == 'quick' else 250000)
+    return [{'k': 'hub'}] * (30000 if tier == 'quick' else 600000)
 
 
 def gen(item, rng, tier):
